@@ -162,4 +162,580 @@ Proof. intros G Sm V x X. rewrite (same_cons _ _ Sm) in X. apply (same_rowv w w'
 Definition VMC (f : nat) : Prop :=
   forall w t S o w', StoreOK w -> Inv2 w -> Chain w S -> entry_ok w S t -> Q gen ord w -> VC w -> (ord t < f)%nat ->
     mc f w t = Done o w' -> VC w'.
+
+(* the inside of a returning require of the executing task t *)
+Lemma require_done f t S w x c o w' :
+  Pre t S w -> live (gr w) (tn t) = true -> Q gen ord w -> (ord x < ord t)%nat -> ~ In (tn x) (kidsT w t) -> (ord t <= f)%nat ->
+  require_with OC (mc f) w x c = Done o w' ->
+  exists w3 w4, Leaf t w w3 /\ Same w w3 /\ StoreOK w3 /\ Inv2 w3 /\ Chain w3 (t :: S) /\ edge w3 t x /\ Q gen ord w3 /\
+    mc f w3 x = Done o w4 /\ Same w4 w' /\
+    (forall a, a <> t -> kidsT w' a = kidsT w4 a /\ forall d, row w' a d = row w4 a d).
+Proof.
+  intros PR Lt Hq Ho Hnew Hf Eq. pose proof (require_prefix RC OC P t S w x c PR) as RP. cbv zeta in RP.
+  destruct PR as [H J0 C Hc Hout Hn]. unfold require_with in Eq.
+  set (w2 := get_or_create_task_node (emit w (ERequireStart x c)) x) in *.
+  destruct RP as [L2 [Hc2 RP]]. unfold reserve_require_dependency in Eq. rewrite Hc2 in Eq.
+  destruct (goc_task_row (emit w (ERequireStart x c)) x t) as [K2 R2]. fold w2 in K2, R2.
+  assert (Q2 : Q gen ord w2) by (apply Q_goc_task; apply (Q_same gen ord w); [reflexivity|exact Hq]).
+  pose proof (Same_add_dep w2 (tn t) (tn x) DReserved) as SA3.
+  destruct (add_dependency w2 (tn t) (tn x) DReserved) as [[| |] w3] eqn:AD; cbn [bind snd] in *; try discriminate.
+  destruct RP as [L3 [E3 [C3 [J3 [Ho3 Hc3]]]]].
+  assert (Hn2 : ~ In (tn x) (kids_of (gr w2) (tn t))) by (unfold kidsT in *; rewrite K2; exact Hnew).
+  destruct (add_dep_new w2 (tn t) (tn x) DReserved w3 (proj1 (lf_ok _ _ _ L2)) Hn2 AD) as [A3 [B3 D3]].
+  assert (Q3 : Q gen ord w3).
+  { intros a. destruct (N.eq_dec a t) as [->|Hne]; [|apply (Q_leaf_other gen ord t w w3 a L3 Hne); apply Hq].
+    apply (QR_step gen ord t w w3 (tn x) DReserved); [|apply Hq| | |].
+    - unfold RowStep, kidsT, row. split; [rewrite A3; f_equal; exact K2|]. split; [exact B3|]. intros d' Hd. rewrite D3 by exact Hd. apply R2.
+    - intros y E. apply tn_inj in E. subst y. exact Ho.
+    - intros r E. exfalso. exact (tn_rn _ _ E).
+    - intros r E. exfalso. exact (tn_rn _ _ E). }
+  assert (Sw3 : Same w w3).
+  { eapply Same_trans; [apply (Same_struct w (emit w (ERequireStart x c))); reflexivity|]. eapply Same_trans; [apply Same_goc_task|exact SA3]. }
+  destruct (mc f w3 x) as [o4 w4|k w4|] eqn:MA; cbn [bind] in Eq; try discriminate.
+  pose proof (make_consistent_td_spec RC OC P f w3 x (t :: S) (lf_ok _ _ _ L3) J3 C3 E3) as M. rewrite MA in M. destruct M as [_ [Hc4 _]]. rewrite Hc3 in Hc4.
+  unfold update_require_dependency in Eq.
+  change (cur (emit w4 (ERequireEnd x c (oc_stamp (OC c) o4) o4))) with (cur w4) in Eq. rewrite Hc4 in Eq.
+  destruct (get_edata (gr (emit w4 _)) (tn t) (tn x)); cbn [bind] in Eq; try discriminate.
+  inversion Eq; subst o w'. exists w3, w4.
+  split; [exact L3|]. split; [exact Sw3|]. split; [apply (lf_ok _ _ _ L3)|]. split; [exact J3|]. split; [exact C3|]. split; [exact E3|]. split; [exact Q3|].
+  split; [exact MA|]. split; [apply Same_struct; reflexivity|].
+  intros a Hne. split; [reflexivity|]. intros d0. unfold row. cbn [gr set_gr emit]. rewrite get_edata_insert.
+  destruct (pair_eqb (tn t, tn x) (tn a, d0)) eqn:Z; [|reflexivity]. apply pair_eqb_eq in Z. inversion Z as [[Z1 Z2]]. apply tn_inj in Z1. congruence.
+Qed.
+
+Lemma rows_same_rowv w w' a : Same w w' -> kidsT w' a = kidsT w a -> (forall d, row w' a d = row w a d) -> RowV w a -> RowV w' a.
+Proof.
+  intros Sm _ R RV d dp R'. rewrite R in R'.
+  apply (depok_keep w w' dp (same_env _ _ Sm)); [intros y Y; rewrite (same_cons _ _ Sm); exact Y| | |apply (RV d dp R')].
+  - intros y _. unfold get_task_output. rewrite (same_outs _ _ Sm). reflexivity.
+  - intros r _. apply (same_content _ _ Sm).
+Qed.
+
+(* a returning require keeps VC and the validity of the executing task's partial record *)
+Lemma req_V f t S w x c o w' : VMC f ->
+  Pre t S w -> live (gr w) (tn t) = true -> Q gen ord w -> (ord x < ord t)%nat -> ~ In (tn x) (kidsT w t) -> (ord t <= f)%nat ->
+  VC w -> RowV w t -> memN t (consistent w) = false ->
+  require_with OC (mc f) w x c = Done o w' -> VC w' /\ RowV w' t.
+Proof.
+  intros IH PR Lt Hq Ho Hnew Hf V RVt Hnc Eq.
+  destruct (require_done f t S w x c o w' PR Lt Hq Ho Hnew Hf Eq) as [w3 [w4 [L3 [Sw3 [H3 [J3 [C3 [E3 [Q3 [MA [S4 Rows]]]]]]]]]]].
+  destruct (mc_seg f w3 x (t :: S) o w4 H3 J3 C3 E3 Q3 ltac:(lia) MA) as [[s4 P4] [Cx4 [Ox4 [CF4 [Q4 E4]]]]].
+  assert (V3 : VC w3).
+  { intros y Y. rewrite (same_cons _ _ Sw3) in Y. apply (leaf_rowv t w w3 y L3 Sw3); [intros ->; congruence|apply V; exact Y]. }
+  pose proof (IH w3 x (t :: S) o w4 H3 J3 C3 E3 Q3 V3 ltac:(lia) MA) as V4.
+  assert (Hnc4 : memN t (consistent w4) = false).
+  { destruct (memN t (consistent w4)) eqn:Z; [|reflexivity]. apply (po_keep _ _ _ _ _ _ P4) in Z; [|left; left; reflexivity].
+    rewrite (same_cons _ _ Sw3) in Z. congruence. }
+  split.
+  - intros y Y. rewrite (same_cons _ _ S4) in Y. assert (Hne : y <> t) by (intros ->; congruence).
+    destruct (Rows y Hne) as [K R]. apply (rows_same_rowv w4 w' y S4 K R). apply V4. exact Y.
+  - (* the executing task's record: old entries kept, the new one valid by reflexivity *)
+    pose proof (require_with_row RC OC P (mc f) t S (make_consistent_td_spec RC OC P f) w x c o w' PR Hnew Eq) as [RK [RN RO]].
+    pose proof (require_with_spec RC OC P (mc f) t S (make_consistent_td_spec RC OC P f) w x c
+                  (pre_ok _ _ _ PR) (pre_inv _ _ _ PR) (pre_chain _ _ _ PR) (pre_cur _ _ _ PR) (pre_out _ _ _ PR) (pre_nores _ _ _ PR)) as SP.
+    rewrite Eq in SP. destruct SP as [[sg PS] _].
+    pose proof (require_with_CF_strong gen RC OC P (mc f) t S (make_consistent_td_spec RC OC P f) (make_consistent_td_CF gen wck RC OC P sf HS HWF f) w x c PR Hnc) as CFs.
+    rewrite Eq in CFs. cbn in CFs.
+    intros d dp R'. destruct (N.eq_dec d (tn x)) as [->|Hd].
+    + rewrite RN in R'. inversion R'; subst dp. cbn [DepOK]. split; [rewrite (same_cons _ _ S4); exact Cx4|].
+      exists o. split; [unfold get_task_output; rewrite (same_outs _ _ S4); exact Ox4|apply HReflO].
+    + rewrite RO in R' by exact Hd.
+      apply (depok_keep w w' dp (req_env f w x c o w' Eq) (po_mono _ _ _ _ _ _ PS)); [| |apply (RVt d dp R')].
+      * intros y Y. destruct (po_others _ _ _ _ _ _ PS y) as [_ [_ O]]; [| |exact O].
+        -- intros Z. destruct (po_fresh _ _ _ _ _ _ PS y Z) as [_ [_ Z']]. congruence.
+        -- intros [E|[]]. subst y. congruence.
+      * intros r Er. apply (proj1 CFs). destruct (pre_ok _ _ _ PR) as [W [T Sw]]. destruct (T _ _ _ R') as [_ TG].
+        assert (Ed : d = rn r). { destruct dp as [|y c' st|r' c' st|r' c' st]; cbn in Er, TG; inversion Er; congruence. }
+        subst d. apply (row_stab (t :: S) w t r dp (conj W (conj T Sw)) (Hq t) RVt (or_intror (or_introl eq_refl)) R').
+Qed.
+
+(* ---- one operation of the executing task: the bundle of facts the passes need ---- *)
+Notation req f := (require_with OC (mc f)).
+
+Lemma req_step f t S w x c o w' : (ord t <= f)%nat ->
+  Pre t S w -> live (gr w) (tn t) = true -> Q gen ord w -> (ord x < ord t)%nat -> ~ In (tn x) (kidsT w t) ->
+  req f w x c = Done o w' ->
+  Pre t S w' /\ live (gr w') (tn t) = true /\ Q gen ord w' /\ RowStep t w w' (tn x) (DRequire x c (oc_stamp (OC c) o)).
+Proof.
+  intros Hf PR Lt Hq Ho Hnew Eq.
+  pose proof (require_with_spec RC OC P (mc f) t S (make_consistent_td_spec RC OC P f) w x c
+                (pre_ok _ _ _ PR) (pre_inv _ _ _ PR) (pre_chain _ _ _ PR) (pre_cur _ _ _ PR) (pre_out _ _ _ PR) (pre_nores _ _ _ PR)) as SP.
+  pose proof (require_with_Q gen ord RC OC P (mc f) f t S (make_consistent_td_spec RC OC P f) (make_consistent_td_Q gen wck ord RC OC P sf HS HWF HWO f) Hf w x c PR Lt Hq Ho Hnew) as RQ.
+  rewrite Eq in SP, RQ. cbn in RQ.
+  split; [eapply (pre_step t S w); eassumption|]. split; [eapply (step_live t S w); eassumption|]. split; [exact RQ|].
+  apply (require_with_row RC OC P (mc f) t S (make_consistent_td_spec RC OC P f) w x c o w' PR Hnew Eq).
+Qed.
+
+Lemma read_step t S w r c xv w' :
+  Pre t S w -> live (gr w) (tn t) = true -> Q gen ord w -> ~ In (rn r) (kidsT w t) ->
+  (gen r = None \/ exists g, gen r = Some g /\ In (tn g) (kidsT w t)) ->
+  sess_read RC w r c = Done xv w' ->
+  xv = inl (rc_view (RC c) (get_content w r)) /\ Pre t S w' /\ live (gr w') (tn t) = true /\ Q gen ord w' /\
+  RowStep t w w' (rn r) (DRead r c (sf c r (get_content w r))) /\ Leaf t w w' /\ Same w w'.
+Proof.
+  intros PR Lt Hq Hx Hg Eq.
+  pose proof (sess_read_leaf RC w t r c (pre_ok _ _ _ PR) (pre_cur _ _ _ PR)) as LF.
+  pose proof (sess_read_nores RC w t r c (pre_ok _ _ _ PR) (pre_cur _ _ _ PR) (pre_nores _ _ _ PR)) as NRs.
+  pose proof (okP_of_leafO S t w (sess_read RC w r c) (chain_head_notin _ _ _ (pre_chain _ _ _ PR)) (pre_cur _ _ _ PR) (pre_out _ _ _ PR) (pre_nores _ _ _ PR) LF NRs) as SP.
+  destruct (sess_read_row RC sf HS w t r c xv w' (pre_ok _ _ _ PR) (pre_cur _ _ _ PR) Hx Eq) as [Ex RS].
+  destruct (sess_read_done RC sf HS w t r c xv w' (pre_cur _ _ _ PR) Eq) as [_ Sm].
+  rewrite Eq in *. cbn [leafO] in LF.
+  split; [exact Ex|]. split; [eapply (pre_step t S w); eassumption|]. split; [eapply (step_live t S w); eassumption|].
+  split; [|split; [exact RS|split; [exact LF|exact Sm]]].
+  intros a. destruct (N.eq_dec a t) as [->|Hne]; [|apply (Q_leaf_other gen ord t w w' a LF Hne); apply Hq].
+  apply (QR_step gen ord t w w' _ _ RS (Hq t)).
+  - intros y E. exfalso. symmetry in E. exact (tn_rn _ _ E).
+  - intros r0 _ X. discriminate.
+  - intros r0 E _. assert (r0 = r) by (unfold rn in E; lia). subst r0. exact Hg.
+Qed.
+
+Lemma write_step t S w r c v xv w' :
+  Pre t S w -> live (gr w) (tn t) = true -> Q gen ord w -> ~ In (rn r) (kidsT w t) -> gen r = Some t ->
+  sess_write RC w r c v = Done xv w' ->
+  xv = inl tt /\ Pre t S w' /\ live (gr w') (tn t) = true /\ Q gen ord w' /\
+  RowStep t w w' (rn r) (DWrite r c (sf c r v)) /\ Leaf t w w' /\ Wrote w w' r v.
+Proof.
+  intros PR Lt Hq Hx Hg Eq.
+  pose proof (sess_write_leaf RC w t r c v (pre_ok _ _ _ PR) (pre_cur _ _ _ PR)) as LF.
+  pose proof (sess_write_nores RC w t r c v (pre_ok _ _ _ PR) (pre_cur _ _ _ PR) (pre_nores _ _ _ PR)) as NRs.
+  pose proof (okP_of_leafO S t w (sess_write RC w r c v) (chain_head_notin _ _ _ (pre_chain _ _ _ PR)) (pre_cur _ _ _ PR) (pre_out _ _ _ PR) (pre_nores _ _ _ PR) LF NRs) as SP.
+  destruct (sess_write_row RC sf HS w t r c v xv w' (pre_ok _ _ _ PR) (pre_cur _ _ _ PR) Hx Eq) as [Ex RS].
+  destruct (sess_write_done RC sf HS w t r c v xv w' (pre_cur _ _ _ PR) Eq) as [_ Wr].
+  rewrite Eq in *. cbn [leafO] in LF.
+  split; [exact Ex|]. split; [eapply (pre_step t S w); eassumption|]. split; [eapply (step_live t S w); eassumption|].
+  split; [|split; [exact RS|split; [exact LF|exact Wr]]].
+  intros a. destruct (N.eq_dec a t) as [->|Hne]; [|apply (Q_leaf_other gen ord t w w' a LF Hne); apply Hq].
+  apply (QR_step gen ord t w w' _ _ RS (Hq t)).
+  - intros y E. exfalso. symmetry in E. exact (tn_rn _ _ E).
+  - intros r0 E _. assert (r0 = r) by (unfold rn in E; lia). subst r0. exact Hg.
+  - intros r0 _ X. discriminate.
+Qed.
+
+Lemma written_to_step t S w r c v xv w' :
+  Pre t S w -> live (gr w) (tn t) = true -> Q gen ord w -> ~ In (rn r) (kidsT w t) -> gen r = Some t ->
+  sess_written_to RC w r c v = Done xv w' ->
+  xv = inl tt /\ Pre t S w' /\ live (gr w') (tn t) = true /\ Q gen ord w' /\
+  RowStep t w w' (rn r) (DWrite r c (sf c r v)) /\ Leaf t w w' /\ Wrote w w' r v.
+Proof.
+  intros PR Lt Hq Hx Hg Eq.
+  pose proof (sess_written_to_leaf RC w t r c v (pre_ok _ _ _ PR) (pre_cur _ _ _ PR)) as LF.
+  pose proof (sess_written_to_nores RC w t r c v (pre_ok _ _ _ PR) (pre_cur _ _ _ PR) (pre_nores _ _ _ PR)) as NRs.
+  pose proof (okP_of_leafO S t w (sess_written_to RC w r c v) (chain_head_notin _ _ _ (pre_chain _ _ _ PR)) (pre_cur _ _ _ PR) (pre_out _ _ _ PR) (pre_nores _ _ _ PR) LF NRs) as SP.
+  destruct (sess_written_to_row RC sf HS w t r c v xv w' (pre_ok _ _ _ PR) (pre_cur _ _ _ PR) Hx Eq) as [Ex RS].
+  destruct (sess_written_to_done RC sf HS w t r c v xv w' (pre_cur _ _ _ PR) Eq) as [_ Wr].
+  rewrite Eq in *. cbn [leafO] in LF.
+  split; [exact Ex|]. split; [eapply (pre_step t S w); eassumption|]. split; [eapply (step_live t S w); eassumption|].
+  split; [|split; [exact RS|split; [exact LF|exact Wr]]].
+  intros a. destruct (N.eq_dec a t) as [->|Hne]; [|apply (Q_leaf_other gen ord t w w' a LF Hne); apply Hq].
+  apply (QR_step gen ord t w w' _ _ RS (Hq t)).
+  - intros y E. exfalso. symmetry in E. exact (tn_rn _ _ E).
+  - intros r0 E _. assert (r0 = r) by (unfold rn in E; lia). subst r0. exact Hg.
+  - intros r0 _ X. discriminate.
+Qed.
+
+(* a consistent task has no recorded dependency on a product of a task that is not consistent *)
+Lemma no_dep_on_unbuilt_product w y t r dp : StoreOK w -> QR gen ord w y -> RowV w y -> memN y (consistent w) = true ->
+  memN t (consistent w) = false -> gen r = Some t -> row w y (rn r) = Some dp -> False.
+Proof.
+  intros [W [T _]] [_ [Q2 Q3]] RV Hy Ht Hg R. destruct (T _ _ _ R) as [_ TG].
+  destruct dp as [|z c st|r' c st|r' c st]; cbn in TG.
+  - rewrite rn_odd in TG. discriminate.
+  - exact (tn_rn _ _ (eq_sym TG)).
+  - destruct (Q3 r _ R eq_refl) as [E|[g [E B]]]; [congruence|]. rewrite Hg in E. inversion E; subst g.
+    pose proof (before_in _ _ _ B) as I. apply (wf_edata _ W) in I. unfold kidsT in I.
+    destruct (get_edata (gr w) (tn y) (tn t)) as [dp'|] eqn:G; [|contradiction].
+    pose proof (RV (tn t) dp' G) as D. destruct (T _ _ _ G) as [_ TG'].
+    destruct dp' as [|z c' st'|r2 c' st'|r2 c' st']; cbn in D, TG'; try contradiction.
+    + apply tn_inj in TG'. subst z. destruct D as [D _]. congruence.
+    + exact (tn_rn _ _ TG').
+    + exact (tn_rn _ _ TG').
+  - pose proof (Q2 r _ R eq_refl) as E. rewrite Hg in E. inversion E; subst y. congruence.
+Qed.
+
+Lemma wrote_rowv w w' r v y : StoreOK w -> Wrote w w' r v -> (forall d, row w' y d = row w y d) ->
+  (forall dp, row w y (rn r) = Some dp -> False) -> RowV w y -> RowV w' y.
+Proof.
+  intros H [W1 [W2 [W3 [W4 W5]]]] R NoR RV d dp R'. rewrite R in R'.
+  apply (depok_keep w w' dp W3); [intros z Z; rewrite W4; exact Z| | |apply (RV d dp R')].
+  - intros z _. unfold get_task_output. rewrite W5. reflexivity.
+  - intros r0 Er. apply W2. intros ->. destruct H as [_ [T _]]. destruct (T _ _ _ R') as [_ TG].
+    assert (Ed : d = rn r). { destruct dp as [|z c' st|r' c' st|r' c' st]; cbn in Er, TG; inversion Er; congruence. }
+    subst d. exact (NoR dp R').
+Qed.
+
+Lemma exec_prog_V f t S : VMC f -> (ord t <= f)%nat ->
+  forall p w o w', Pre t S w -> live (gr w) (tn t) = true -> Q gen ord w -> VC w -> RowV w t -> memN t (consistent w) = false ->
+    WFP gen wck t (kidsT w t) p -> WFO ord t p ->
+    exec_prog RC OC (req f) p w = Done o w' -> VC w' /\ RowV w' t /\ memN t (consistent w') = false /\ Q gen ord w' /\ StoreOK w'.
+Proof.
+  intros IH Hf. induction p as [o0| |x c k IHp|r c k IHp|r c v k IHp|r c v k IHp]; intros w o w' PR Lt Hq V RVt Hnc HW HO Eq; cbn [exec_prog] in Eq.
+  - inversion Eq; subst. split; [exact V|]. split; [exact RVt|]. split; [exact Hnc|]. split; [exact Hq|apply (pre_ok _ _ _ PR)].
+  - discriminate.
+  - inversion HW as [| |sn x' c' k' Hx Hk| | |]; subst. inversion HO as [|x' c' k' Hox Hok| | |]; subst.
+    destruct (req f w x c) as [ox w1|k1 w1|] eqn:RQ; cbn [bind] in Eq; try discriminate.
+    destruct (req_step f t S w x c ox w1 Hf PR Lt Hq Hox Hx RQ) as [PR1 [Lt1 [Q1 RS]]].
+    destruct (req_V f t S w x c ox w1 IH PR Lt Hq Hox Hx Hf V RVt Hnc RQ) as [V1 RV1].
+    assert (Hnc1 : memN t (consistent w1) = false).
+    { pose proof (require_with_spec RC OC P (mc f) t S (make_consistent_td_spec RC OC P f) w x c
+                    (pre_ok _ _ _ PR) (pre_inv _ _ _ PR) (pre_chain _ _ _ PR) (pre_cur _ _ _ PR) (pre_out _ _ _ PR) (pre_nores _ _ _ PR)) as SP.
+      rewrite RQ in SP. apply (step_nc t S w ox w1 _ SP Hnc). }
+    apply (IHp (oc_view (OC c) ox) w1 o w' PR1 Lt1 Q1 V1 RV1 Hnc1); [rewrite (proj1 RS); apply Hk|apply Hok|exact Eq].
+  - inversion HW as [| | |sn r' c' k' Hx Hg Hk| |]; subst. inversion HO as [| |r' c' k' Hok| |]; subst.
+    destruct (sess_read RC w r c) as [xv w1|k1 w1|] eqn:RQ; cbn [bind] in Eq; try discriminate.
+    destruct (read_step t S w r c xv w1 PR Lt Hq Hx Hg RQ) as [-> [PR1 [Lt1 [Q1 [RS [LF Sm]]]]]].
+    assert (V1 : VC w1).
+    { intros y Y. rewrite (same_cons _ _ Sm) in Y. apply (leaf_rowv t w w1 y LF Sm); [intros ->; congruence|apply V; exact Y]. }
+    assert (RV1 : RowV w1 t).
+    { destruct RS as [_ [RN RO]]. intros d dp R'. destruct (N.eq_dec d (rn r)) as [->|Hd].
+      - rewrite RN in R'. inversion R'; subst dp. cbn [DepOK]. rewrite (same_env _ _ Sm), (same_content _ _ Sm). apply HRefl.
+      - rewrite RO in R' by exact Hd. apply (depok_keep w w1 dp (same_env _ _ Sm)); [intros z Z; rewrite (same_cons _ _ Sm); exact Z| | |apply (RVt d dp R')].
+        + intros z _. unfold get_task_output. rewrite (same_outs _ _ Sm). reflexivity.
+        + intros r0 _. apply (same_content _ _ Sm). }
+    apply (IHp (inl (rc_view (RC c) (get_content w r))) w1 o w' PR1 Lt1 Q1 V1 RV1 ltac:(rewrite (same_cons _ _ Sm); exact Hnc)); [rewrite (proj1 RS); apply Hk|apply Hok|exact Eq].
+  - inversion HW as [| | | |sn r' c' v' k' Hx Hg Hwc Hk|]; subst. inversion HO as [| | |r' c' v' k' Hok|]; subst.
+    destruct (sess_write RC w r c v) as [xv w1|k1 w1|] eqn:RQ; cbn [bind] in Eq; try discriminate.
+    destruct (write_step t S w r c v xv w1 PR Lt Hq Hx Hg RQ) as [-> [PR1 [Lt1 [Q1 [RS [LF Wr]]]]]].
+    pose proof Wr as [W1 [W2 [W3 [W4 W5]]]].
+    assert (V1 : VC w1).
+    { intros y Y. rewrite W4 in Y. assert (Hne : y <> t) by (intros ->; congruence).
+      apply (wrote_rowv w w1 r v y (pre_ok _ _ _ PR) Wr); [intros d; apply (lf_eother _ _ _ LF); intros E; apply tn_inj in E; contradiction| |apply V; exact Y].
+      intros dp R. exact (no_dep_on_unbuilt_product w y t r dp (pre_ok _ _ _ PR) (Hq y) (V y Y) Y Hnc Hg R). }
+    assert (RV1 : RowV w1 t).
+    { destruct RS as [_ [RN RO]]. intros d dp R'. destruct (N.eq_dec d (rn r)) as [->|Hd].
+      - rewrite RN in R'. inversion R'; subst dp. cbn [DepOK]. rewrite W1. apply HRefl.
+      - rewrite RO in R' by exact Hd. apply (depok_keep w w1 dp W3); [intros z Z; rewrite W4; exact Z| | |apply (RVt d dp R')].
+        + intros z _. unfold get_task_output. rewrite W5. reflexivity.
+        + intros r0 Er. apply W2. intros ->. destruct (pre_ok _ _ _ PR) as [_ [T _]]. destruct (T _ _ _ R') as [_ TG].
+          apply Hd. destruct dp as [|z c' st|r' c' st|r' c' st]; cbn in Er, TG; inversion Er; congruence. }
+    apply (IHp (inl tt) w1 o w' PR1 Lt1 Q1 V1 RV1 ltac:(rewrite W4; exact Hnc)); [rewrite (proj1 RS); apply Hk|apply Hok|exact Eq].
+  - inversion HW as [| | | | |sn r' c' v' k' Hx Hg Hwc Hk]; subst. inversion HO as [| | | |r' c' v' k' Hok]; subst.
+    destruct (sess_written_to RC w r c v) as [xv w1|k1 w1|] eqn:RQ; cbn [bind] in Eq; try discriminate.
+    destruct (written_to_step t S w r c v xv w1 PR Lt Hq Hx Hg RQ) as [-> [PR1 [Lt1 [Q1 [RS [LF Wr]]]]]].
+    pose proof Wr as [W1 [W2 [W3 [W4 W5]]]].
+    assert (V1 : VC w1).
+    { intros y Y. rewrite W4 in Y. assert (Hne : y <> t) by (intros ->; congruence).
+      apply (wrote_rowv w w1 r v y (pre_ok _ _ _ PR) Wr); [intros d; apply (lf_eother _ _ _ LF); intros E; apply tn_inj in E; contradiction| |apply V; exact Y].
+      intros dp R. exact (no_dep_on_unbuilt_product w y t r dp (pre_ok _ _ _ PR) (Hq y) (V y Y) Y Hnc Hg R). }
+    assert (RV1 : RowV w1 t).
+    { destruct RS as [_ [RN RO]]. intros d dp R'. destruct (N.eq_dec d (rn r)) as [->|Hd].
+      - rewrite RN in R'. inversion R'; subst dp. cbn [DepOK]. rewrite W1. apply HRefl.
+      - rewrite RO in R' by exact Hd. apply (depok_keep w w1 dp W3); [intros z Z; rewrite W4; exact Z| | |apply (RVt d dp R')].
+        + intros z _. unfold get_task_output. rewrite W5. reflexivity.
+        + intros r0 Er. apply W2. intros ->. destruct (pre_ok _ _ _ PR) as [_ [T _]]. destruct (T _ _ _ R') as [_ TG].
+          apply Hd. destruct dp as [|z c' st|r' c' st|r' c' st]; cbn in Er, TG; inversion Er; congruence. }
+    apply (IHp (inl tt) w1 o w' PR1 Lt1 Q1 V1 RV1 ltac:(rewrite W4; exact Hnc)); [rewrite (proj1 RS); apply Hk|apply Hok|exact Eq].
+Qed.
+
+Lemma execute_with_V f t S : VMC f -> (ord t <= f)%nat ->
+  forall w o w', StoreOK w -> Inv2 w -> Chain w (t :: S) -> memN t (consistent w) = false -> live (gr w) (tn t) = true ->
+    Q gen ord w -> VC w -> execute_with RC OC P (req f) w t = Done o w' ->
+    VC w' /\ RowV w' t /\ memN t (consistent w') = false /\ Q gen ord w' /\ get_task_output w' t = Some o.
+Proof.
+  intros IH Hf w o w' H J0 C Hn Lt Hq V Eq.
+  destruct (exec_start_pre OC t S w H J0 C Hn) as [PR2 [Hn2 [KT2 [R2 C2]]]]. unfold execute_with in Eq.
+  set (w2 := emit (set_cur (reset_task w t) (Some t)) (EExecStart t)) in *.
+  destruct (reset_task_facts w t H) as [_ [K1 [L1 [_ [_ [_ [E1 [E0 [_ O1]]]]]]]]].
+  assert (Lt2 : live (gr w2) (tn t) = true) by (apply L1; exact Lt).
+  assert (Q2 : Q gen ord w2).
+  { intros a. destruct (N.eq_dec a t) as [->|Hne].
+    - apply QR_empty; [exact KT2|intros d; apply E0].
+    - assert (X : tn a <> tn t) by (intros E; apply tn_inj in E; contradiction).
+      apply (QR_same gen ord w); [apply K1; exact X|intros d; apply E1; exact X|apply Hq]. }
+  assert (V2 : VC w2).
+  { intros y Y. rewrite C2 in Y. assert (Hne : y <> t) by (intros ->; congruence).
+    assert (X : tn y <> tn t) by (intros E; apply tn_inj in E; contradiction).
+    intros d dp R'. unfold row in R'. change (gr w2) with (gr (reset_task w t)) in R'. rewrite E1 in R' by exact X.
+    apply (depok_keep w w2 dp eq_refl); [intros z Z; rewrite C2; exact Z| | |apply (V y Y d dp R')].
+    - intros z Z. change (get_task_output (reset_task w t) z = get_task_output w z). apply O1. intros ->. congruence.
+    - intros r0 _. unfold get_content. rewrite R2. reflexivity. }
+  assert (RV2 : RowV w2 t) by (intros d dp R'; unfold row in R'; change (gr w2) with (gr (reset_task w t)) in R'; rewrite E0 in R'; discriminate).
+  assert (HW2 : WFP gen wck t (kidsT w2 t) (P t)) by (rewrite KT2; apply HWF).
+  destruct (exec_prog RC OC (req f) (P t) w2) as [o3 w3|k w3|] eqn:XQ; cbn [bind] in Eq; try discriminate.
+  destruct (exec_prog_V f t S IH Hf (P t) w2 o3 w3 PR2 Lt2 Q2 V2 RV2 Hn2 HW2 (HWO t) XQ) as [V3 [RV3 [Hn3 [Q3 H3]]]].
+  inversion Eq; subst o w'. clear Eq.
+  set (w4 := set_task_output (set_cur (emit w3 (EExecEnd t o3)) (cur (reset_task w t))) t o3).
+  assert (O4 : forall z, z <> t -> get_task_output w4 z = get_task_output w3 z).
+  { intros z Hz. unfold get_task_output, w4, set_task_output. cbn [outs set_outs set_cur emit]. apply alookup_aset_other. exact Hz. }
+  assert (KP : forall y, RowV w3 y -> RowV w4 y).
+  { intros y RVy d dp R'. apply (depok_keep w3 w4 dp eq_refl); [intros z Z; exact Z| |intros r0 _; reflexivity|apply (RVy d dp R')].
+    intros z Z. apply O4. intros ->. congruence. }
+  split; [intros y Y; apply KP; apply V3; exact Y|]. split; [apply KP; exact RV3|]. split; [exact Hn3|].
+  split; [apply (Q_same gen ord w3); [reflexivity|exact Q3]|].
+  unfold get_task_output, w4, set_task_output. cbn [outs set_outs]. apply alookup_aset_eq.
+Qed.
+
+Lemma nodup_split_unique (b : node) : forall (m1 m2 p1 p2 : list node),
+  NoDup (m1 ++ b :: m2) -> m1 ++ b :: m2 = p1 ++ b :: p2 -> m1 = p1.
+Proof.
+  induction m1 as [|a m1 IH]; intros m2 p1 p2 ND E; destruct p1 as [|q p1]; cbn in *.
+  - reflexivity.
+  - inversion E; subst. exfalso. inversion ND as [|? ? N1 N2]; subst. apply N1. apply in_or_app. right. left. reflexivity.
+  - inversion E; subst. exfalso. inversion ND as [|? ? N1 N2]; subst. apply N1. apply in_or_app. right. left. reflexivity.
+  - inversion E; subst. f_equal. inversion ND; subst. eapply IH; eassumption.
+Qed.
+Lemma before_prefix (a b : node) l1 l2 : NoDup (l1 ++ l2) -> before a b (l1 ++ l2) -> In b l1 -> In a l1.
+Proof.
+  intros ND [m1 [m2 [E I]]] Hb. apply in_split in Hb. destruct Hb as [p1 [p2 ->]].
+  rewrite <- app_assoc in E, ND. cbn [app] in E, ND.
+  assert (X : p1 = m1) by (eapply nodup_split_unique; [exact ND|exact E]).
+  subst m1. apply in_or_app. left. exact I.
+Qed.
+
+(* the stability condition for the entries of the validated prefix l1 of t's dependency list *)
+Lemma prefix_stab t S w l1 l2 d r dp : StoreOK w -> QR gen ord w t -> kidsT w t = l1 ++ l2 ->
+  (forall d0 dp0, In d0 l1 -> row w t d0 = Some dp0 -> DepOK w dp0) ->
+  In d l1 -> row w t d = Some dp -> dep_res dp = Some r -> StabC gen (t :: S) w r.
+Proof.
+  intros [W [T Sw]] [_ [Q2 Q3]] K V1 Hd R Er. destruct (T _ _ _ R) as [_ TG].
+  assert (Ed : d = rn r). { destruct dp as [|y c st|r' c st|r' c st]; cbn in Er, TG; inversion Er; congruence. }
+  subst d. destruct dp as [|y c st|r' c st|r' c st]; cbn in Er; inversion Er; subst r'.
+  - destruct (Q3 r _ R eq_refl) as [E|[g [E B]]]; [left; exact E|right; exists g; split; [exact E|left]].
+    assert (Ig : In (tn g) l1).
+    { apply (before_prefix (tn g) (rn r) l1 l2); [rewrite <- K; apply (wf_kn _ W)|rewrite <- K; exact B|exact Hd]. }
+    assert (Ik : In (tn g) (kidsT w t)) by (rewrite K; apply in_or_app; left; exact Ig).
+    apply (wf_edata _ W) in Ik. destruct (get_edata (gr w) (tn t) (tn g)) as [dp'|] eqn:G; [|contradiction].
+    pose proof (V1 (tn g) dp' Ig G) as D. destruct (T _ _ _ G) as [_ TG'].
+    destruct dp' as [|z c' st'|r2 c' st'|r2 c' st']; cbn in D, TG'; try contradiction.
+    + apply tn_inj in TG'. subst z. exact (proj1 D).
+    + exfalso. exact (tn_rn _ _ TG').
+    + exfalso. exact (tn_rn _ _ TG').
+  - right. exists t. split; [exact (Q2 r _ R eq_refl)|right; left; reflexivity].
+Qed.
+
+Definition ChkOut (t : task) (S : list task) (L : list node) (w w' : world) (ok : bool) : Prop :=
+  VC w' /\ Q gen ord w' /\ StoreOK w' /\ Inv2 w' /\ Chain w' (t :: S) /\ memN t (consistent w') = false /\
+  kidsT w' t = kidsT w t /\ (forall d, row w' t d = row w t d) /\ get_task_output w' t = get_task_output w t /\
+  (live (gr w) (tn t) = true -> live (gr w') (tn t) = true) /\
+  (ok = true -> forall d dp, In d L -> row w' t d = Some dp -> DepOK w' dp).
+
+Lemma check_deps_V f t S : VMC f -> (ord t <= f)%nat ->
+  forall l2 l1 w ok w', kidsT w t = l1 ++ l2 ->
+    StoreOK w -> Inv2 w -> Chain w (t :: S) -> Q gen ord w -> VC w -> memN t (consistent w) = false ->
+    (forall d dp, In d l1 -> row w t d = Some dp -> DepOK w dp) ->
+    (forall d, In d l2 -> dep_ok w t (row w t d)) ->
+    check_deps RC OC (mc f) (map (row w t) l2) w = Done ok w' ->
+    ChkOut t S (l1 ++ l2) w w' ok.
+Proof.
+  intros IH Hf. induction l2 as [|d l2' IHl]; intros l1 w ok w' K H J0 C Hq V Hnc V1 Hdo Eq; cbn [map check_deps] in Eq.
+  - inversion Eq; subst ok w'. unfold ChkOut. rewrite app_nil_r.
+    split; [exact V|]. split; [exact Hq|]. split; [exact H|]. split; [exact J0|]. split; [exact C|]. split; [exact Hnc|].
+    split; [reflexivity|]. split; [intros; reflexivity|]. split; [reflexivity|]. split; [intros X; exact X|].
+    intros _ d dp Hd R. exact (V1 d dp Hd R).
+  - destruct (Hdo d (or_introl eq_refl)) as [dp [Ed [NRs HX]]]. rewrite Ed in Eq.
+    assert (Kd : In d (kidsT w t)) by (rewrite K; apply in_or_app; right; left; reflexivity).
+    (* what every successful step has to re-establish for the recursive call *)
+    assert (REC : forall a3 okd,
+              StoreOK a3 -> Inv2 a3 -> Chain a3 (t :: S) -> Q gen ord a3 -> VC a3 -> memN t (consistent a3) = false ->
+              kidsT a3 t = kidsT w t -> (forall d0, row a3 t d0 = row w t d0) -> get_task_output a3 t = get_task_output w t ->
+              (live (gr w) (tn t) = true -> live (gr a3) (tn t) = true) ->
+              (forall d0 dp0, In d0 l1 -> row w t d0 = Some dp0 -> DepOK a3 dp0) -> DepOK a3 dp ->
+              check_deps RC OC (mc f) (map (row w t) l2') a3 = Done okd w' -> ChkOut t S (l1 ++ d :: l2') w w' okd).
+    { intros a3 okd H3 J3 C3 Q3 V3 Hn3 K3 R3 O3 L3 V13 Vd E3.
+      assert (E3' : check_deps RC OC (mc f) (map (row a3 t) l2') a3 = Done okd w').
+      { rewrite (map_ext (row a3 t) (row w t) R3). exact E3. }
+      assert (Ka : kidsT a3 t = (l1 ++ [d]) ++ l2') by (rewrite K3, K, <- app_assoc; reflexivity).
+      assert (V1a : forall d0 dp0, In d0 (l1 ++ [d]) -> row a3 t d0 = Some dp0 -> DepOK a3 dp0).
+      { intros d0 dp0 I0 R0. rewrite R3 in R0. apply in_app_or in I0. destruct I0 as [I0|[<-|[]]]; [apply (V13 d0 dp0 I0 R0)|].
+        rewrite Ed in R0. inversion R0; subst dp0. exact Vd. }
+      assert (Hdoa : forall d0, In d0 l2' -> dep_ok a3 t (row a3 t d0)).
+      { intros d0 I0. rewrite R3. destruct (Hdo d0 (or_intror I0)) as [dp0 [E0 [N0 X0]]]. exists dp0. split; [exact E0|]. split; [exact N0|].
+        intros x c st E. unfold edge. change (kids_of (gr a3) (tn t)) with (kidsT a3 t). rewrite K3. apply (X0 x c st E). }
+      destruct (IHl (l1 ++ [d]) a3 okd w' Ka H3 J3 C3 Q3 V3 Hn3 V1a Hdoa E3') as [A1 [A2 [A3 [A4 [A5 [A6 [A7 [A8 [A9 [A10 A11]]]]]]]]]].
+      unfold ChkOut. split; [exact A1|]. split; [exact A2|]. split; [exact A3|]. split; [exact A4|]. split; [exact A5|]. split; [exact A6|].
+      split; [rewrite A7; exact K3|]. split; [intros d0; rewrite A8; apply R3|]. split; [rewrite A9; exact O3|]. split; [intros X; apply A10, L3; exact X|].
+      intros Hok d0 dp0 I0 R0. apply (A11 Hok d0 dp0); [|exact R0]. rewrite <- app_assoc. exact I0. }
+    (* the same conclusion when validation stops here *)
+    assert (STOP : forall a3, StoreOK a3 -> Inv2 a3 -> Chain a3 (t :: S) -> Q gen ord a3 -> VC a3 -> memN t (consistent a3) = false ->
+              kidsT a3 t = kidsT w t -> (forall d0, row a3 t d0 = row w t d0) -> get_task_output a3 t = get_task_output w t ->
+              (live (gr w) (tn t) = true -> live (gr a3) (tn t) = true) -> ChkOut t S (l1 ++ d :: l2') w a3 false).
+    { intros a3 H3 J3 C3 Q3 V3 Hn3 K3 R3 O3 L3. unfold ChkOut.
+      split; [exact V3|]. split; [exact Q3|]. split; [exact H3|]. split; [exact J3|]. split; [exact C3|]. split; [exact Hn3|].
+      split; [exact K3|]. split; [exact R3|]. split; [exact O3|]. split; [exact L3|]. discriminate. }
+    destruct dp as [|x c st|r c st|r c st]; [congruence| | |].
+    + set (a1 := emit w (ECheckTaskStart x c st)) in *.
+      destruct (mc f a1 x) as [ox a2|k a2|] eqn:MA; cbn [bind] in Eq; try discriminate.
+      assert (C1 : Chain a1 (t :: S)) by (destruct C as [N C]; split; [exact N|apply (chain_frame w a1); [exact C|intros; reflexivity]]).
+      assert (E1 : entry_ok a1 (t :: S) x) by (cbn; apply (HX x c st eq_refl)).
+      assert (Ox : (ord x < ord t)%nat) by (apply (proj1 (Hq t)); apply (HX x c st eq_refl)).
+      assert (Q1 : Q gen ord a1) by (apply (Q_same gen ord w); [reflexivity|exact Hq]).
+      assert (Va1 : VC a1) by (apply (VC_same w a1); [reflexivity|apply Same_struct; reflexivity|exact V]).
+      destruct (mc_seg f a1 x (t :: S) ox a2 H J0 C1 E1 Q1 ltac:(lia) MA) as [[s2 P2] [Cx2 [Ox2 [CF2 [Q2 E2]]]]].
+      pose proof (IH a1 x (t :: S) ox a2 H J0 C1 E1 Q1 Va1 ltac:(lia) MA) as V2.
+      set (a3 := emit a2 (ECheckTaskEnd x c st (negb (oc_check (OC c) ox st)))) in *.
+      assert (H3 : StoreOK a3) by apply (po_ok _ _ _ _ _ _ P2).
+      assert (J3 : Inv2 a3) by apply (po_inv _ _ _ _ _ _ P2 J0).
+      assert (C3 : Chain a3 (t :: S)).
+      { pose proof (chain_post_all a1 a2 (t :: S) [] s2 C1 P2) as [N2 C2']. split; [exact N2|]. apply (chain_frame a2 a3); [exact C2'|]. intros; reflexivity. }
+      assert (Q3 : Q gen ord a3) by (apply (Q_same gen ord a2); [reflexivity|exact Q2]).
+      assert (V3 : VC a3) by (apply (VC_same a2 a3); [reflexivity|apply Same_struct; reflexivity|exact V2]).
+      assert (Hn3 : memN t (consistent a3) = false).
+      { destruct (memN t (consistent a3)) eqn:Z; [|reflexivity]. apply (po_keep _ _ _ _ _ _ P2) in Z; [|left; left; reflexivity].
+        change (memN t (consistent w) = true) in Z. congruence. }
+      assert (K3 : kidsT a3 t = kidsT w t) by (apply (po_frame _ _ _ _ _ _ P2); left; reflexivity).
+      assert (R3 : forall d0, row a3 t d0 = row w t d0) by (intros d0; apply (po_eframe _ _ _ _ _ _ P2); left; reflexivity).
+      assert (O3 : get_task_output a3 t = get_task_output w t) by (apply (po_oframe _ _ _ _ _ _ P2); left; left; reflexivity).
+      assert (L3 : live (gr w) (tn t) = true -> live (gr a3) (tn t) = true) by (intros X; apply (po_live _ _ _ _ _ _ P2); exact X).
+      destruct (oc_check (OC c) ox st) eqn:OK1.
+      * apply (REC a3 ok H3 J3 C3 Q3 V3 Hn3 K3 R3 O3 L3); [| |exact Eq].
+        -- intros d0 dp0 I0 R0. apply (depok_keep w a3 dp0); [exact E2|apply (po_mono _ _ _ _ _ _ P2)| | |apply (V1 d0 dp0 I0 R0)].
+           ++ intros y Y. destruct (po_others _ _ _ _ _ _ P2 y) as [_ [_ O]]; [|intros []|exact O].
+              intros Z. destruct (po_fresh _ _ _ _ _ _ P2 y Z) as [_ [_ Z']]. change (memN y (consistent w) = false) in Z'. congruence.
+           ++ intros r Er. apply (proj1 CF2). apply (prefix_stab t S w l1 (d :: l2') d0 r dp0 H (Hq t) K V1 I0 R0 Er).
+        -- cbn [DepOK]. split; [exact Cx2|]. exists ox. split; [exact Ox2|exact OK1].
+      * inversion Eq; subst ok w'. apply (STOP a3 H3 J3 C3 Q3 V3 Hn3 K3 R3 O3 L3).
+    + unfold check_resource_td in Eq. cbv zeta in Eq.
+      set (a1 := emit w (ECheckResStart r c st)) in *.
+      set (xx := rc_check (RC c) (env a1) r (get_content a1 r) st) in *.
+      set (a2 := emit a1 (ECheckResEnd r c st xx)) in *.
+      assert (Sa : Same w a2) by (apply Same_struct; reflexivity).
+      assert (C2 : Chain a2 (t :: S)) by (destruct C as [N C]; split; [exact N|apply (chain_frame w a2); [exact C|intros; reflexivity]]).
+      assert (Q2 : Q gen ord a2) by (apply (Q_same gen ord w); [reflexivity|exact Hq]).
+      assert (V2 : VC a2) by (apply (VC_same w a2); [reflexivity|exact Sa|exact V]).
+      assert (KP : forall dp0, DepOK w dp0 -> DepOK a2 dp0).
+      { intros dp0 D0. apply (depok_keep w a2 dp0 eq_refl); [intros y Y; exact Y|intros; reflexivity|intros; reflexivity|exact D0]. }
+      destruct xx as [| |e] eqn:XX; cbv iota beta in Eq.
+      * apply (REC a2 ok H J0 C2 Q2 V2 Hnc eq_refl ltac:(intros; reflexivity) eq_refl ltac:(intros X; exact X)); [| |exact Eq].
+        -- intros d0 dp0 I0 R0. apply KP. apply (V1 d0 dp0 I0 R0).
+        -- cbn [DepOK]. exact XX.
+      * inversion Eq; subst ok w'. apply (STOP a2 H J0 C2 Q2 V2 Hnc eq_refl ltac:(intros; reflexivity) eq_refl ltac:(intros X; exact X)).
+      * inversion Eq; subst ok w'.
+        assert (Sp : Same w (push_err a2 e)) by (apply Same_struct; reflexivity).
+        apply (STOP (push_err a2 e) H J0 ltac:(destruct C as [N C]; split; [exact N|apply (chain_frame w _); [exact C|intros; reflexivity]])
+                 ltac:(apply (Q_same gen ord w); [reflexivity|exact Hq]) ltac:(apply (VC_same w _); [reflexivity|exact Sp|exact V]) Hnc eq_refl ltac:(intros; reflexivity) eq_refl ltac:(intros X; exact X)).
+    + unfold check_resource_td in Eq. cbv zeta in Eq.
+      set (a1 := emit w (ECheckResStart r c st)) in *.
+      set (xx := rc_check (RC c) (env a1) r (get_content a1 r) st) in *.
+      set (a2 := emit a1 (ECheckResEnd r c st xx)) in *.
+      assert (Sa : Same w a2) by (apply Same_struct; reflexivity).
+      assert (C2 : Chain a2 (t :: S)) by (destruct C as [N C]; split; [exact N|apply (chain_frame w a2); [exact C|intros; reflexivity]]).
+      assert (Q2 : Q gen ord a2) by (apply (Q_same gen ord w); [reflexivity|exact Hq]).
+      assert (V2 : VC a2) by (apply (VC_same w a2); [reflexivity|exact Sa|exact V]).
+      assert (KP : forall dp0, DepOK w dp0 -> DepOK a2 dp0).
+      { intros dp0 D0. apply (depok_keep w a2 dp0 eq_refl); [intros y Y; exact Y|intros; reflexivity|intros; reflexivity|exact D0]. }
+      destruct xx as [| |e] eqn:XX; cbv iota beta in Eq.
+      * apply (REC a2 ok H J0 C2 Q2 V2 Hnc eq_refl ltac:(intros; reflexivity) eq_refl ltac:(intros X; exact X)); [| |exact Eq].
+        -- intros d0 dp0 I0 R0. apply KP. apply (V1 d0 dp0 I0 R0).
+        -- cbn [DepOK]. exact XX.
+      * inversion Eq; subst ok w'. apply (STOP a2 H J0 C2 Q2 V2 Hnc eq_refl ltac:(intros; reflexivity) eq_refl ltac:(intros X; exact X)).
+      * inversion Eq; subst ok w'.
+        assert (Sp : Same w (push_err a2 e)) by (apply Same_struct; reflexivity).
+        apply (STOP (push_err a2 e) H J0 ltac:(destruct C as [N C]; split; [exact N|apply (chain_frame w _); [exact C|intros; reflexivity]])
+                 ltac:(apply (Q_same gen ord w); [reflexivity|exact Hq]) ltac:(apply (VC_same w _); [reflexivity|exact Sp|exact V]) Hnc eq_refl ltac:(intros; reflexivity) eq_refl ltac:(intros X; exact X)).
+Qed.
+
+Lemma mark_V w t : VC w -> RowV w t -> VC (mark_consistent w t).
+Proof.
+  intros V RVt y Y. unfold mark_consistent in Y. cbn [consistent set_consistent] in Y. rewrite memN_cons in Y.
+  assert (KP : forall x, RowV w x -> RowV (mark_consistent w t) x).
+  { intros x RVx d dp R'. apply (depok_keep w (mark_consistent w t) dp eq_refl); [|intros; reflexivity|intros; reflexivity|apply (RVx d dp R')].
+    intros z Z. unfold mark_consistent. cbn [consistent set_consistent]. rewrite memN_cons, Z. apply orb_true_r. }
+  destruct (N.eq_dec y t) as [E|Hne]; [subst y; apply KP; exact RVt|]. rewrite (proj2 (N.eqb_neq y t) Hne) in Y. apply KP. apply V. exact Y.
+Qed.
+
+Theorem make_consistent_td_V : forall f, VMC f.
+Proof.
+  induction f as [|f IH]; intros w t S o w' H J0 C E Hq V Hf Eq; [discriminate|]. cbn [make_consistent_td] in Eq.
+  pose proof (goc_task_post S w t H) as P0.
+  set (w0 := get_or_create_task_node w t) in *.
+  assert (Sm0 : Same w w0) by apply Same_goc_task.
+  assert (Q0 : Q gen ord w0) by (apply Q_goc_task; exact Hq).
+  assert (V0 : VC w0).
+  { intros y Y. rewrite (same_cons _ _ Sm0) in Y. destruct (goc_task_row w t y) as [A B]. apply (rows_same_rowv w w0 y Sm0 A B). apply V. exact Y. }
+  pose proof (po_ok _ _ _ _ _ _ P0) as H0. pose proof (po_inv _ _ _ _ _ _ P0 J0) as J1.
+  pose proof (chain_post_all w w0 S [] [] C P0) as C0.
+  assert (E0 : entry_ok w0 S t).
+  { destruct S as [|top tl]; [exact Logic.I|]. cbn in *. unfold edge in *. rewrite (po_frame _ _ _ _ _ _ P0) by (left; reflexivity). exact E. }
+  pose proof (entry_not_in w0 S t (proj1 H0) C0 E0) as Ht.
+  assert (C1 : Chain w0 (t :: S)).
+  { destruct C0 as [N0 K0']. split; [constructor; assumption|]. destruct S as [|top tl]; [exact Logic.I|]. split; [exact E0|exact K0']. }
+  assert (Lt0 : live (gr w0) (tn t) = true) by apply live_goc_task.
+  assert (EM : forall w1 o1 w2, StoreOK w1 -> Inv2 w1 -> Chain w1 (t :: S) -> memN t (consistent w1) = false -> live (gr w1) (tn t) = true ->
+               Q gen ord w1 -> VC w1 -> execute_with RC OC P (req f) w1 t = Done o1 w2 -> VC (mark_consistent w2 t)).
+  { intros w1 o1 w2 A1 A2 A3 A4 A5 A6 A7 A8.
+    destruct (execute_with_V f t S IH ltac:(lia) w1 o1 w2 A1 A2 A3 A4 A5 A6 A7 A8) as [V2 [RV2 _]]. apply mark_V; assumption. }
+  destruct (memN t (consistent w0)) eqn:Hm.
+  - destruct (get_task_output w0 t); [|discriminate]. inversion Eq; subst. exact V0.
+  - destruct (get_task_output w0 t) as [o0|] eqn:Ho.
+    + destruct (check_deps RC OC (mc f) (deps_of_task w0 t) w0) as [ok w1|k w1|] eqn:CD; cbn [bind] in Eq; try discriminate.
+      rewrite deps_of_task_map in CD.
+      assert (Hdo : forall d, In d (kidsT w0 t) -> dep_ok w0 t (row w0 t d)).
+      { intros d Hd. apply (deps_ok w0 t o0 H0 J1 Ho). rewrite deps_of_task_map. apply in_map. exact Hd. }
+      destruct (check_deps_V f t S IH ltac:(lia) (kidsT w0 t) [] w0 ok w1 eq_refl H0 J1 C1 Q0 V0 Hm ltac:(intros d dp []) Hdo CD)
+        as [V1 [Q1 [H1 [J2 [C2 [Hn1 [K1 [R1 [O1 [L1 Vall]]]]]]]]]].
+      destruct ok.
+      * rewrite O1, Ho in Eq. inversion Eq; subst o w'. apply mark_V; [exact V1|].
+        intros d dp R'. apply (Vall eq_refl d dp); [|exact R']. cbn [app]. rewrite <- K1.
+        apply (wf_edata _ (proj1 H1)). unfold row in R'. congruence.
+      * destruct (execute_with RC OC P (req f) w1 t) as [o1 w2|k w2|] eqn:XQ; cbn [bind] in Eq; try discriminate.
+        inversion Eq; subst o w'. apply (EM w1 o1 w2 H1 J2 C2 Hn1 (L1 Lt0) Q1 V1 XQ).
+    + destruct (execute_with RC OC P (req f) w0 t) as [o1 w2|k w2|] eqn:XQ; cbn [bind] in Eq; try discriminate.
+      inversion Eq; subst o w'. apply (EM w0 o1 w2 H0 J1 C1 Hm Lt0 Q0 V0 XQ).
+Qed.
+
+(* ---- sessions: VC holds at the end of every returning session ---- *)
+Variable always : ocid.
+
+Lemma session_require_V fuel w t o w' : StoreOK w -> Inv2 w -> Q gen ord w -> VC w -> (ord t < fuel)%nat ->
+  session_require RC OC P always fuel w t = Done o w' ->
+  VC w' /\ memN t (consistent w') = true /\ get_task_output w' t = Some o /\ cons_mono w w' /\
+  (forall y, memN y (consistent w) = true -> get_task_output w' y = get_task_output w y).
+Proof.
+  intros H J0 Hq V Hf Eq. unfold session_require, require_td, require_with in Eq.
+  set (w1 := emit (set_cur w None) EBuildStart) in *.
+  set (w2 := get_or_create_task_node (emit w1 (ERequireStart t always)) t) in *.
+  assert (P2 : Post [] [] [] w1 w2 ([ERequireStart t always] ++ [])).
+  { eapply post_seq; [apply post_emit; [exact H|exact Logic.I]|apply goc_task_post; exact H]. }
+  assert (Hc2 : cur w2 = None) by (unfold w2, get_or_create_task_node; destruct (live _ _); reflexivity).
+  assert (Q2 : Q gen ord w2) by (apply Q_goc_task; apply (Q_same gen ord w); [reflexivity|exact Hq]).
+  assert (Sm2 : Same w w2).
+  { eapply Same_trans; [apply (Same_struct w (emit w1 (ERequireStart t always))); reflexivity|apply Same_goc_task]. }
+  assert (V2 : VC w2).
+  { intros y Y. rewrite (same_cons _ _ Sm2) in Y. destruct (goc_task_row (emit w1 (ERequireStart t always)) t y) as [A B].
+    apply (rows_same_rowv w w2 y Sm2 A B). apply V. exact Y. }
+  unfold reserve_require_dependency in Eq. rewrite Hc2 in Eq. cbn [bind] in Eq.
+  destruct (mc fuel w2 t) as [o4 w4|k w4|] eqn:MA; cbn [bind] in Eq; try discriminate.
+  destruct (mc_seg fuel w2 t [] o4 w4 (po_ok _ _ _ _ _ _ P2) (po_inv _ _ _ _ _ _ P2 J0) (chain_nil w2) Logic.I Q2 Hf MA) as [[s4 P4] [C4 [O4 [_ [_ E4]]]]].
+  pose proof (make_consistent_td_V fuel w2 t [] o4 w4 (po_ok _ _ _ _ _ _ P2) (po_inv _ _ _ _ _ _ P2 J0) (chain_nil w2) Logic.I Q2 V2 Hf MA) as V4.
+  pose proof (make_consistent_td_spec RC OC P fuel w2 t [] (po_ok _ _ _ _ _ _ P2) (po_inv _ _ _ _ _ _ P2 J0) (chain_nil w2) Logic.I) as M. rewrite MA in M. destruct M as [_ [Hc4 _]].
+  unfold update_require_dependency in Eq.
+  change (cur (emit w4 (ERequireEnd t always (oc_stamp (OC always) o4) o4))) with (cur w4) in Eq. rewrite Hc4, Hc2 in Eq. cbn [bind] in Eq.
+  inversion Eq; subst o w'.
+  split; [apply (VC_same w4); [reflexivity|apply Same_struct; reflexivity|exact V4]|]. split; [exact C4|]. split; [exact O4|]. split.
+  - intros y Y. change (memN y (consistent w4) = true). apply (po_mono _ _ _ _ _ _ P4). rewrite (same_cons _ _ Sm2). exact Y.
+  - intros y Y. change (get_task_output w4 y = get_task_output w y).
+    destruct (po_others _ _ _ _ _ _ P4 y) as [_ [_ O]]; [|intros []|].
+    + intros Z. destruct (po_fresh _ _ _ _ _ _ P4 y Z) as [_ [_ Z']]. rewrite (same_cons _ _ Sm2) in Z'. congruence.
+    + rewrite O. unfold get_task_output. rewrite (same_outs _ _ Sm2). reflexivity.
+Qed.
+
+(* the roots of a session and the outputs it returned *)
+Fixpoint roots (ops : list sop) : list task := match ops with [] => [] | SRequire t :: tl => t :: roots tl | SBottomUp _ :: tl => roots tl end.
+
+Theorem session_V fuel ops : forall w, roots_below ord fuel ops -> J w -> Q gen ord w -> VC w ->
+  let r := run_session RC OC P always fuel w ops in
+  VC (snd r) /\ J (snd r) /\ Q gen ord (snd r) /\ cons_mono w (snd r) /\
+  (forall y, memN y (consistent w) = true -> get_task_output (snd r) y = get_task_output w y) /\
+  exists outs_, fst r = map (fun o => RDone (Some o)) outs_ /\ length outs_ = length (roots ops) /\
+    forall i t o, nth_error (roots ops) i = Some t -> nth_error outs_ i = Some o ->
+      memN t (consistent (snd r)) = true /\ get_task_output (snd r) t = Some o.
+Proof.
+  induction ops as [|op tl IH]; intros w RB Jw Hq V; cbn [run_session roots].
+  - cbn. split; [exact V|]. split; [exact Jw|]. split; [exact Hq|]. split; [intros y Y; exact Y|]. split; [intros; reflexivity|].
+    exists []. split; [reflexivity|]. split; [reflexivity|]. intros i t o X. destruct i; discriminate.
+  - destruct op as [t|ch]; [|destruct RB]. destruct RB as [Hf RB]. cbn [run_sop roots].
+    pose proof (session_require_Q gen wck ord RC OC P sf HS HWF HWO always fuel w t (proj1 Jw) (proj2 Jw) Hq Hf) as SQ.
+    pose proof (session_require_execs RC OC P always fuel w t Jw) as SE.
+    destruct (session_require RC OC P always fuel w t) as [x w1|k w1|] eqn:SR; cbn [ret] in SQ; try contradiction.
+    destruct SE as [J1 _].
+    destruct (session_require_V fuel w t x w1 (proj1 Jw) (proj2 Jw) Hq V Hf SR) as [V1 [C1 [O1 [M1 St1]]]].
+    specialize (IH w1 RB J1 SQ V1). cbv zeta in IH.
+    destruct (run_session RC OC P always fuel w1 tl) as [rs w2]. cbn [fst snd] in *.
+    destruct IH as [A1 [A2 [A3 [A4 [A5 [outs_ [A6 [A7 A8]]]]]]]].
+    split; [exact A1|]. split; [exact A2|]. split; [exact A3|]. split; [intros y Y; apply A4, M1; exact Y|].
+    split; [intros y Y; rewrite (A5 y (M1 y Y)); apply St1; exact Y|].
+    exists (x :: outs_). split; [cbn; rewrite A6; reflexivity|]. split; [cbn; rewrite A7; reflexivity|].
+    intros i t' o X Y. destruct i as [|i]; cbn in X, Y.
+    + inversion X; inversion Y; subst. split; [apply A4; exact C1|]. rewrite (A5 t' C1). exact O1.
+    + apply (A8 i t' o X Y).
+Qed.
 End V.
